@@ -213,16 +213,29 @@ def coq_eval(proj, name, content, timeout=900):
 # Go harness / OCaml drivers
 # ---------------------------------------------------------------------------
 
+def _repo_tag():
+    return "" if REPO == "/repo" else "-" + hashlib.sha1(REPO.encode()).hexdigest()[:8]
+
+
 def go_build(cmd, race=False, timeout=600):
-    """Build harness/cmd/<cmd> against /repo's working tree with -tags verif."""
+    """Build harness/cmd/<cmd> against the go-quartz working tree (REPO) with -tags verif.
+
+    REPO is /repo unless VERIF_REPO is set (scratch copies for mutation testing); then a
+    private go.mod with a different replace directive is used and binaries go to a
+    separate directory, so /repo-based builds are never disturbed.
+    """
     hdir = os.path.join(VERIF, "harness")
-    os.makedirs(os.path.join(BUILD, "bin"), exist_ok=True)
-    out_bin = os.path.join(BUILD, "bin", cmd + ("-race" if race else ""))
-    with Lock("go"):
-        gosum = os.path.join(REPO, "go.sum")
-        if os.path.exists(gosum):
-            write_if_changed(os.path.join(hdir, "go.sum"), open(gosum).read())
+    bindir = os.path.join(BUILD, "bin" + _repo_tag())
+    os.makedirs(bindir, exist_ok=True)
+    out_bin = os.path.join(bindir, cmd + ("-race" if race else ""))
+    with Lock("go" + _repo_tag()):
         args = ["go", "build", "-tags", "verif", "-o", out_bin]
+        if REPO != "/repo":
+            moddir = os.path.join(BUILD, "gomod" + _repo_tag())
+            os.makedirs(moddir, exist_ok=True)
+            gm = open(os.path.join(hdir, "go.mod")).read().replace("=> /repo", "=> " + REPO)
+            write_if_changed(os.path.join(moddir, "go.mod"), gm)
+            args.append("-modfile=" + os.path.join(moddir, "go.mod"))
         if race:
             args.append("-race")
         args.append("./cmd/" + cmd)
